@@ -122,21 +122,20 @@ Lemma backu32 v : in_u 32 v = true -> from_be (be_bytes 4 v) = v.
 Proof. intros H. apply in_u_true in H. apply from_be_be_bytes. pows. lia. Qed.
 
 (* ------------------------------------------------------------------ vectors *)
-Lemma vcomp_back b : in_u 32 b = true -> bad32 b = false ->
+Lemma vcomp_back b : in_u 32 b = true ->
   (if SIGN32 <=? venc b then flip 32 (venc b) else bnot 32 (venc b)) = b.
 Proof.
-  intros W K. destruct (split32 b W) as [Hm Hb].
-  unfold venc, lt0_32, bad32, bnot, flip in *. unfold SIGN32 in *. pows.
-  destruct (neg32 b) eqn:Es; cbn [andb] in *.
-  - destruct (mag32 b =? 0) eqn:Ez; cbn [orb negb andb] in *; [discriminate|]. rewrite K. cbn [negb].
-    destruct (2147483648 <=? 4294967296 - 1 - b) eqn:C; lia.
+  intros W. destruct (split32 b W) as [Hm Hb].
+  unfold venc, bnot, flip in *. unfold SIGN32 in *. pows.
+  destruct (neg32 b) eqn:Es.
+  - destruct (2147483648 <=? 4294967296 - 1 - b) eqn:C; lia.
   - destruct (b <? 2147483648) eqn:C; [|lia].
     destruct (2147483648 <=? b + 2147483648) eqn:C2; [|lia].
     destruct (b + 2147483648 <? 2147483648) eqn:C3; lia.
 Qed.
 
-Lemma venc_range b : in_u 32 b = true -> bad32 b = false -> 0 <= venc b < 256 ^ Z.of_nat 4.
-Proof. intros W K. rewrite venc_tot by assumption. apply tot32_range. exact W. Qed.
+Lemma venc_range b : in_u 32 b = true -> 0 <= venc b < 256 ^ Z.of_nat 4.
+Proof. intros W. rewrite venc_tot by assumption. apply tot32_range. exact W. Qed.
 
 Definition vbody (l : list Z) : list Z := flat_map (fun b => be_bytes 4 (venc b)) l.
 
@@ -147,14 +146,14 @@ Proof.
 Qed.
 
 (* component i of the decoded vector *)
-Lemma vcomp_at pre l : forall i r, forallb (in_u 32) l = true -> existsb bad32 l = false ->
+Lemma vcomp_at pre l : forall i r, forallb (in_u 32) l = true ->
   (i < length l)%nat ->
   (let e := from_be (sub (pre ++ vbody l ++ r) (blen pre + Z.of_nat i * 4) 4) in
    if SIGN32 <=? e then flip 32 e else bnot 32 e) = nth i l 0.
 Proof.
-  revert pre. induction l as [|b l IH]; intros pre i r W K Hi; [cbn in Hi; lia|].
-  cbn [forallb existsb] in W, K. apply andb_true_iff in W. apply orb_false_iff in K.
-  destruct W as [Wb W], K as [Kb K].
+  revert pre. induction l as [|b l IH]; intros pre i r W Hi; [cbn in Hi; lia|].
+  cbn [forallb] in W. apply andb_true_iff in W.
+  destruct W as [Wb W].
   destruct i as [|i].
   - cbn [nth]. unfold vbody. cbn [flat_map]. rewrite <- app_assoc.
     replace (blen pre + Z.of_nat 0 * 4) with (blen pre) by lia.
@@ -162,7 +161,7 @@ Proof.
     cbv zeta. rewrite from_be_be_bytes by (apply venc_range; assumption).
     apply vcomp_back; assumption.
   - cbn [nth]. unfold vbody. cbn [flat_map]. rewrite <- app_assoc.
-    specialize (IH (pre ++ be_bytes 4 (venc b)) i r W K ltac:(cbn [length] in Hi; lia)).
+    specialize (IH (pre ++ be_bytes 4 (venc b)) i r W ltac:(cbn [length] in Hi; lia)).
     rewrite <- app_assoc in IH. unfold vbody in IH.
     rewrite blen_app, blen_be_bytes in IH.
     replace (blen pre + Z.of_nat (S i) * 4) with (blen pre + Z.of_nat 4 + Z.of_nat i * 4) by lia.
@@ -179,10 +178,10 @@ Proof.
     rewrite map_nth, seq_nth by exact Hi. apply H. exact Hi.
 Qed.
 
-Lemma dec_vector_enc l r : forallb (in_u 32) l = true -> blen l < 2 ^ 32 -> existsb bad32 l = false ->
+Lemma dec_vector_enc l r : forallb (in_u 32) l = true -> blen l < 2 ^ 32 ->
   dec_vector (senc (SVector l) ++ r) = ROk (SVector l) (blen (senc (SVector l))).
 Proof.
-  intros W L K. cbn [senc app]. fold (vbody l). rewrite <- app_assoc.
+  intros W L. cbn [senc app]. fold (vbody l). rewrite <- app_assoc.
   pose proof (blen_nonneg l) as Hl. pose proof (blen_nonneg r) as Hr.
   rewrite wrap_u_small by lia.
   unfold dec_vector.
@@ -309,11 +308,10 @@ Proof.
     rewrite !backu32 by assumption. reflexivity.
   - (* vector *)
     apply andb_true_iff in W. destruct W as [W L].
-    unfold s_known in K. cbn [s_class1 s_class2 s_class3] in K. rewrite !orb_false_r in K.
     cbn [scanon]. change (senc (SVector l) ++ r) with (KP_VECTOR :: (be_bytes 4 (wrap_u 32 (blen l)) ++ vbody l) ++ r).
-    rewrite sdec_VECTOR. f_equal. apply dec_vector_enc; [exact W | lia | exact K].
+    rewrite sdec_VECTOR. f_equal. apply dec_vector_enc; [exact W | lia].
   - (* json *)
-    unfold s_known in K. cbn [s_class1 s_class2 s_class3 orb] in K. apply orb_false_iff in K.
+    unfold s_known in K. cbn [s_class3] in K.
     cbn [senc scanon]. rewrite sdec_JSON. cbn [ssize] in Hf.
-    rewrite jdec_jenc by (try assumption; try (split; tauto); lia). reflexivity.
+    rewrite jdec_jenc by (try assumption; lia). reflexivity.
 Qed.
